@@ -1,57 +1,38 @@
-(* Recorded findings for C09 (KNOWN_FINDINGS.txt; tcp-attribute-error, mnr-sets-start-offset and sn-identity were repaired
-   upstream and their refutations removed).  Each theorem exhibits an input on which the faithful model
-   of ttconv/stl (and, by the correspondence run, the code) departs from the specification; the matching trigger is in
-   Model/StlTriggers.v and the `_partial` theorem in Properties/C09.v.  If this file stops compiling a finding is stale,
-   which the check reports as such (it is not a violation). *)
+(* Recorded findings for C09 (KNOWN_FINDINGS.txt).  One is left: df-23976 (it is C12's roundtrip-23976 in time_code.py,
+   pinned by the tests).  tcp-attribute-error, mnr-sets-start-offset, sn-identity, cumulative-before-first,
+   tf-strip-not-cut, iso6937-a4, comment-flag-ignored, blank-row-dropped, vp-zero-above-safe-area and tnb-zero-division
+   were repaired and their refutations removed (their inputs are Examples of Properties/C09.v now).  Each theorem
+   exhibits an input on which the faithful model of ttconv/stl (and, by the correspondence run, the code) departs from
+   the specification; the matching trigger is in Model/StlTriggers.v and the `_partial` theorems in Properties/C09.v.
+   If this file stops compiling a finding is stale, which the check reports as such (it is not a violation). *)
 From Coq Require Import QArith.
 From TT Require Import Base.Prelude Model.TimeCode Model.Iso6937 Model.StlTf Model.StlDatafile Model.StlTriggers.
 From TT Require Import Spec.Smpte12M Spec.Ebu3264Spec.
-From TT Require Import Proofs.C09.Tables Proofs.C09.TextField Proofs.C09.Times Proofs.C09.Datafile.
+From TT Require Import Proofs.C09.Tables Proofs.C09.TextField Proofs.C09.Times Proofs.C09.Datafile Proofs.C09.File.
 Open Scope Z_scope.
-
-(* iso6937-a4: byte 0xA4 is decoded to U+00A4 (which is 0xA8), the standard has the dollar sign *)
-Theorem C09_iso6937_refuted : exists b, 0 <= b < 256 /\ decode6937 [b] = [164] /\ decode_iso6937 [b] = [36].
-Proof. exists 164. split; [lia|]. split; vm_compute; reflexivity. Qed.
-
-(* blank-row-dropped: A, empty row, B in single height is presented with one line break *)
-Theorem C09_tf_refuted : exists bs, map piece_of_leaf (tf_model (fun x => x) true bs) <> tf_spec (fun x => x) true bs.
-Proof. exact tf_blank_row_refuted. Qed.
-
-(* tf-strip-not-cut: text after a leading unused-space byte is presented *)
-Theorem C09_strip_refuted : exists tf, strip_8f tf <> text_of_field tf.
-Proof. exact strip_is_cut_refuted. Qed.
 
 (* df-23976: 00:01:00:00 at 24000/1001 is placed one frame early *)
 Theorem C09_offset_23976_refuted : exists l, valid 24 0 l /\ ~ (offset_q r23976 l == time_of (mkFR 24000 1001 24 0) l)%Q.
 Proof. exact offset23976_refuted. Qed.
 
-(* vp-zero-above-safe-area *)
-Theorem C09_region_vp_zero_refuted : exists rows tf r, region_for rows 0 tf false = Some r /\ ~ inside_safe_area (rect_of r).
-Proof. exact region_vp_zero_refuted. Qed.
-
-(* the remaining ones are about whole files: S presents subtitles, the reader raises (or presents something else) *)
-Definition presents (file : list Z) (sc : start_cfg) (rc : rows_cfg) (n : nat) : Prop :=
-  exists g rows, presentation file sc rc = Some (g, rows) /\ length (concat g) = n.
-
-(* cumulative-before-first: an intermediate member of a cumulative set as the first block *)
-Theorem C09_cumulative_first_refuted : exists file, reader_model file cfg0 = Err EAttribute.
-Proof. exists (witness_gsi ++ witness_tti 0 1 2 20 2 0 [65]). vm_compute. reflexivity. Qed.
-
-(* tnb-zero-division: TNB = 00000 *)
-Theorem C09_tnb_refuted : exists file, presents file StartNone RowsDefault 1 /\ reader_model file cfg0 = Err EZeroDiv.
+(* ... and so is a whole file: the specification's domain contains a file (STL23.01, one subtitle at 00:01:00:00) whose
+   document the reader returns does not match the presentation - C09_file_partial without its trigger hypothesis is false *)
+Definition file_23976 : list Z :=
+  put 3 [83; 84; 76; 50; 51; 46; 48; 49] witness_gsi ++
+  [0; 1; 0; 255; 0; 0; 1; 0; 0; 0; 1; 1; 0; 20; 2; 0] ++ firstn 112 ([65] ++ repeat 143 112%nat).
+Theorem C09_file_refuted : exists file cfg sc groups rows d,
+  Forall is_byte file /\ spec_start (cf_start cfg) = Some sc /\
+  presentation file sc (spec_rows (cf_rows cfg)) = Some (groups, rows) /\
+  reader_model file cfg = Ok d /\ ~ doc_matches rows d groups.
 Proof.
-  exists (put 238 [48; 48; 48; 48; 48] witness_gsi ++ witness_tti 0 1 2 20 0 0 [65]).
-  split; [eexists; eexists; split; vm_compute; reflexivity | vm_compute; reflexivity].
+  exists file_23976, cfg0, StartNone.
+  eexists. eexists. eexists. split; [|split; [reflexivity|split; [vm_compute; reflexivity|split; [vm_compute; reflexivity|]]]].
+  - apply Forall_forall. intros b Hb.
+    assert (H : forallb (fun b => (0 <=? b) && (b <? 256)) file_23976 = true) by (vm_compute; reflexivity).
+    rewrite forallb_forall in H. specialize (H b Hb). unfold is_byte. lia.
+  - unfold doc_matches. cbn [d_divs d_regions]. intros H.
+    inversion H as [|? ? ? ? Hd _]; subst. inversion Hd as [|? ? ? ? Hp _]; subst.
+    destruct Hp as (_ & Hparts & _). vm_compute in Hparts. discriminate Hparts.
 Qed.
 
-(* comment-flag-ignored: a block whose comment flag is set is presented *)
-Theorem C09_comment_refuted : exists file, presents file StartNone RowsDefault 0 /\ paragraphs_of (reader_model file cfg0) = 1.
-Proof.
-  exists (witness_gsi ++ witness_tti 0 1 2 20 0 1 [65]).
-  split; [eexists; eexists; split; vm_compute; reflexivity | vm_compute; reflexivity].
-Qed.
-
-Print Assumptions C09_iso6937_refuted.  Print Assumptions C09_tf_refuted.  Print Assumptions C09_strip_refuted.
-Print Assumptions C09_offset_23976_refuted.  Print Assumptions C09_region_vp_zero_refuted.
-Print Assumptions C09_cumulative_first_refuted.
-Print Assumptions C09_tnb_refuted.  Print Assumptions C09_comment_refuted.
+Print Assumptions C09_offset_23976_refuted.  Print Assumptions C09_file_refuted.
